@@ -460,7 +460,21 @@ def call_method(ip, st, recv, name, args, kwargs):
             if len(args) > 1:
                 return args[1]
             _raise(KeyError, repr(k))
-    if type(recv).__name__ == "SText" and name == "decode":
+    if getattr(recv, "is_text", False) and name == "encode" and recv.kind == "str":
+        from .text import utf8_encoded
+
+        codec = (args[0] if args else kwargs.get("encoding", "utf-8"))
+        if not isinstance(codec, str) or codec.lower().replace("_", "-") not in ("utf-8", "utf8"):
+            raise Unsupported(f"str.encode({codec!r}) of a modelled text")
+        enc_t, bad = utf8_encoded(st, recv)
+        if st.branch(bad):
+            _raise(UnicodeEncodeError, "surrogates not allowed")
+        return enc_t
+    if getattr(recv, "is_text", False) and name == "upper" and recv.kind == "str" and not args:
+        from .text import upper_of_char_text
+
+        return upper_of_char_text(st, recv)
+    if getattr(recv, "is_text", False) and name == "decode":
         # assumed contract on bytes.decode('utf-8'): raises UnicodeDecodeError on ill-formed input; otherwise
         # yields the characters successive decode steps yield (so the total width is the column difference)
         if recv.kind != "bytes":
@@ -512,7 +526,7 @@ def b_len(ip, st, x):
     x = st.force(x)
     if isinstance(x, ModelObj):
         return x.py_len(st)
-    if type(x).__name__ == "SText":
+    if getattr(x, "is_text", False):
         return x.length
     if isinstance(x, SObj):
         if x.base_list:
@@ -756,7 +770,7 @@ def b_isinstance(ip, st, x, cls):
             return issubclass(int, c)
         if isinstance(x, SReal):
             return issubclass(float, c)
-        if type(x).__name__ == "SText":
+        if getattr(x, "is_text", False):
             return issubclass(str if x.kind == "str" else bytes, c)
         if isinstance(x, SOpaque) and x.kind == "Char":
             return issubclass(str, c)
@@ -1014,6 +1028,13 @@ def b_ord(ip, st, c):
         from .text import char_ord
 
         return char_ord(c)
+    if getattr(c, "is_text", False):
+        # ord(s): TypeError unless len(s) == 1; then the code point of the character / the value of the byte
+        from .text import char_ord
+
+        st.partial(V._cmp("==", c.length, 1) if V.is_sym(c.length) else c.length == 1, TypeError, "ord() expected a character")
+        e = c.get(0)
+        return char_ord(e) if c.kind == "str" else e
     if isinstance(c, Sym):
         return ip.task.sym_ord(ip, st, c)
     try:
